@@ -2,6 +2,7 @@
 # usage: try_seed.sh <patch.diff> <check id>...   — applies a seeded change to /repo, runs the checks, reverts.
 P=$1; shift
 cd /verif
+export GOSX_EVIDENCE_DIR=/tmp/try_evidence
 git -C /repo apply "$P" || { echo "patch does not apply to /repo"; exit 2; }
 for c in "$@"; do
   timeout 900 ./check $c quick > /tmp/try_$c.log 2>&1; rc=$?
